@@ -40,7 +40,10 @@ pub struct Cfg {
     pub cs_bad: String,
 }
 
-pub const CS_OK_TEXTS: &[&str] = &["B:FF,a:00Ab", "b:00,a:11", "A:00", "a:FF", "sha256:AB,md5:00,SHA1:cd", ":00", "a:", "x:00,É:11", "sha3:256:ABCD", "a:b:00,a:00"];
+pub const CS_OK_TEXTS: &[&str] = &["B:FF,a:00Ab", "b:00,a:11", "A:00", "a:FF", "sha256:AB,md5:00,SHA1:cd", ":00", "a:", "x:00,É:11", "sha3:256:ABCD", "a:b:00,a:00", EMPTY_TEXT];
+/// Stands for the empty text (an empty `cs_ok` means "the default text"): a checksum the hook
+/// sets to "" is an empty qualifier like any other and is dropped, not parsed.
+pub const EMPTY_TEXT: &str = "<empty>";
 pub const CS_BAD_TEXTS: &[&str] = &[
     "sha1:xyz", "sha1:00,sha1:11", "a:00,a:00", "a:0", "a", ",", "a:00,,b:11", "md5:00,MD5:11", "a:00,b:11,b:22", "a:00,", "é:00,É:11", "a:0g", "a:+a", "a:-1", "a: 0", "sha1:0x",
 ];
@@ -49,6 +52,8 @@ impl Cfg {
     pub fn cs_ok_text(&self) -> &str {
         if self.cs_ok.is_empty() {
             CS_OK_TEXTS[0]
+        } else if self.cs_ok == EMPTY_TEXT {
+            ""
         } else {
             &self.cs_ok
         }
